@@ -307,6 +307,10 @@ func (s *state) mutate(op Op) {
 		s.roles[rid] = true
 		s.everHadRole[rid] = true
 	case "rmrole":
+		if op.B != "" {
+			// refused by the unprivileged writer ("cannot delete builtin role"): nothing changes
+			return
+		}
 		delete(s.roles, rid)
 		if !s.keepRoleEdges {
 			delete(s.attach, rid)
@@ -342,7 +346,7 @@ func legal(s *state, sc Script, op Op) bool {
 	case "mkrole":
 		return op.B == "" && !s.roles[rid]
 	case "rmrole":
-		return op.B == "" && s.roles[rid]
+		return s.roles[rid]
 	case "mkpol":
 		return true
 	case "rmpol":
